@@ -199,7 +199,10 @@ def _perm_sign(p):
 def leibniz_exact(A):
     """exact integer determinant over the two leading axes (Python ints)"""
     n = A.shape[0]
-    B = np.vectorize(int, otypes=[object])(A)
+    if np.iscomplexobj(A):             # Gaussian integers: Python complex arithmetic on small integers is exact
+        B = np.vectorize(complex, otypes=[object])(A)
+    else:
+        B = np.vectorize(int, otypes=[object])(A)
     tot = 0
     for p in itertools.permutations(range(n)):
         term = _perm_sign(p)
@@ -216,7 +219,7 @@ for _i, _j, _k in [(0, 1, 2), (1, 2, 0), (2, 0, 1)]:
 
 
 def _eye_like(n, w):
-    out = np.zeros((n, n) + np.shape(w))
+    out = np.zeros((n, n) + np.shape(w), dtype=np.result_type(w, float))
     for i in range(n):
         out[i, i] = w
     return out
@@ -240,7 +243,7 @@ def _oracle_table():
         ('mul_mm', 'mul', 'jx', [A(2), A(2)], lambda a, b: (a[:, :, None] * b[None, :, :]).sum(1), (2, 3)),
         ('trace', 'trace', 'both', [A(2)], lambda t: sum(t[i, i] for i in range(t.shape[0])), (1, 2, 3, 4)),
         ('transpose', 'transpose', 'both', [A(2)], lambda t: np.swapaxes(t, 0, 1), (2, 3)),
-        ('det', 'det', 'both', [A(2)], lambda a: leibniz_exact(a).astype(float), (2, 3)),
+        ('det', 'det', 'both', [A(2)], lambda a: leibniz_exact(a).astype(complex if np.iscomplexobj(a) else float), (2, 3)),
         ('cross3', 'cross', 'np', [A(1), A(1)], lambda a, b: np.einsum('ijk,j...,k...->i...', EPS3, a, b), (3,)),
         ('cross2', 'cross', 'np', [A(1), A(1)], lambda a, b: a[0] * b[1] - a[1] * b[0], (2,)),
     ]
@@ -337,6 +340,18 @@ def helper_oracle(ctx, rng):
                     for v, got in res.items():
                         if got.shape != exp.shape or not np.array_equal(got, exp):
                             _report_helper(ctx, name, func, v, n, tr, args, got, exp)
+                    # COMPLEX dtype (Gaussian integers): the helpers are dtype-generic tensor algebra
+                    cargs = [a + 1j * b(rng, n, tr) for a, b in zip(args, builders)]
+                    cexp = np.asarray(expected(*cargs), dtype=complex)
+                    cres = {}
+                    if variants in ('both', 'np'):
+                        cres['np-complex128'] = np.asarray(getattr(H, func)(*cargs), dtype=complex)
+                    if variants in ('both', 'jx'):
+                        cres['jx-complex128'] = np.asarray(getattr(JH, func)(*[jnp.asarray(a) for a in cargs]), dtype=complex)
+                    ctx.count((name, n, tr, 'complex', [a.tolist() for a in cargs]), nontrivial=n >= 2)
+                    for v, got in cres.items():
+                        if got.shape != cexp.shape or not np.array_equal(got, cexp):
+                            _report_helper(ctx, name, func, v, n, tr, cargs, got, cexp)
     # jump: (-1) ** w.idx[i] * args[i]
     from skfem.assembly.form.form import FormExtraParams
     for idx in (None, (0, 1), (1, 0), (0,), (1,)):
@@ -401,21 +416,37 @@ def helper_oracle(ctx, rng):
             checks.append(('eye', H.eye(w, n), JH.eye(jnp.asarray(w), n), _eye_like(n, w)))
             checks.append(('identity', H.identity(G), None, _eye_like(n, np.ones(tr))))
             checks.append(('identity_N', H.identity(w, N=n), None, _eye_like(n, np.ones(tr))))
+            # the same with complex data (eye / identity / sym_grad / div / curl are dtype-generic)
+            cval, cG = val + 1j * _rand_int(rng, (n,) + tr), G + 1j * _rand_int(rng, (n, n) + tr)
+            cu = DiscreteField(value=cval, grad=cG)
+            cju = JaxDiscreteField(value=jnp.asarray(cval), grad=jnp.asarray(cG))
+            cw = w + 1j * _rand_int(rng, tr)
+            checks += [('sym_grad-complex', H.sym_grad(cu), JH.sym_grad(cju), 0.5 * (cG + np.swapaxes(cG, 0, 1))),
+                       ('div-complex', H.div(cu), JH.div(cju), sum(cG[i, i] for i in range(n))),
+                       ('eye-complex', H.eye(cw, n), JH.eye(jnp.asarray(cw), n), _eye_like(n, cw)),
+                       ('eye-int64', H.eye(w.astype(np.int64), n), JH.eye(jnp.asarray(w.astype(np.int64)), n), _eye_like(n, w))]
+            if n == 3:
+                checks.append(('curl3-complex', H.curl(cu), None, np.einsum('ijk,kj...->i...', EPS3, cG)))
+            else:
+                checks.append(('curl2-complex', H.curl(cu), None, cG[1, 0] - cG[0, 1]))
             for nm, a, b, exp in checks:
                 ctx.count((nm, n, tr, val.tolist(), G.tolist()))
                 ctx.hist('oracle_helper', nm)
                 for v, got in (('np', a), ('jx', b)):
                     if got is None:
                         continue
-                    got = np.asarray(got, dtype=float)
+                    got = np.asarray(got, dtype=complex if np.iscomplexobj(exp) else float)
                     if got.shape != np.shape(exp) or not np.array_equal(got, exp):
                         _report_helper(ctx, nm, nm, v, n, tr, [val, G], got, np.asarray(exp))
 
 
 def _report_helper(ctx, name, func, variant, n, tr, args, got, exp):
     key = 'jax-det3' if (name == 'det' and variant == 'jx' and n == 3) else f'{variant}-{name}:n={n}'
-    data = {'helper': func, 'variant': variant, 'n': n, 'trailing_shape': list(tr), 'args': [np.asarray(a).tolist() for a in args],
-            'got': np.asarray(got).tolist(), 'expected': np.asarray(exp).tolist()}
+    def lst(a):
+        a = np.asarray(a)
+        return [str(z) for z in a.reshape(-1)] if np.iscomplexobj(a) else a.tolist()
+    data = {'helper': func, 'variant': variant, 'n': n, 'trailing_shape': list(tr), 'args': [lst(a) for a in args],
+            'got': lst(got), 'expected': lst(exp)}
     if key == 'jax-det3':
         data.update(_shrink_det3(args[0], tr))
     ctx.fail(key, f'{variant} helper {func} (n={n}) differs from its definition', data)
